@@ -1,8 +1,9 @@
 (* C14 (partial: heap ownership is observed with ASan, not modelled).  ONLY statements closed by `exact`, each followed by
    Print Assumptions.  Conf.parse is the parser model compared with src/config.c on every run. *)
 From Coq Require Import List NArith Bool Strings.Byte.
+From Coq Require Import Strings.String.
 Import ListNotations.
-Require Import Conf ConfMerge ConfTotal.
+Require Import Conf ConfMerge ConfTotal ConfIdem.
 Local Open Scope N_scope.
 
 (* reading ANY byte sequence terminates with success or one of the four error kinds: the fuel the model gives itself is never
@@ -13,7 +14,7 @@ Print Assumptions parsing_is_total.
 
 (* ... and no result is an artefact of the fuel: every larger fuel gives the same answer *)
 Theorem result_does_not_depend_on_fuel : forall c d fuel,
-  (length (cut_nul (c :: d)) < fuel)%nat -> entries fuel (cut_nul (c :: d)) [] = parse (c :: d).
+  (List.length (cut_nul (c :: d)) < fuel)%nat -> entries fuel (cut_nul (c :: d)) [] = parse (c :: d).
 Proof. exact parse_fuel_stable. Qed.
 Print Assumptions result_does_not_depend_on_fuel.
 
@@ -30,3 +31,15 @@ Print Assumptions empty_file_is_an_error.
 Theorem parsed_tree_is_sorted : forall data ks, parse data = inr ks -> tsorted ks.
 Proof. exact parse_result_sorted. Qed.
 Print Assumptions parsed_tree_is_sorted.
+
+(* "when it reports an error, the live configuration is exactly what it was before, and no change notification is delivered":
+   in ANY state of the live tree (registered values, lists, pairs, present nodes all live in st) a load whose text does not parse
+   leaves the state equal, prints the unchanged dump and emits no hook line.  exec is the model compared with src/config.c
+   (load + dump + hook log) on every run. *)
+Theorem failed_load_changes_nothing : forall st data e,
+  parse data = inl e ->
+  fst (exec st (CLoad data)) = st /\
+  snd (exec st (CLoad data)) = [S_ "LOAD ERR"%string] ++ flat_map (fun nv => dumpl 0 (fst nv) (snd nv)) st ++ [S_ "END"%string] /\
+  Forall (fun l => is_hookline l = false) (snd (exec st (CLoad data))).
+Proof. exact failed_load_unchanged. Qed.
+Print Assumptions failed_load_changes_nothing.
